@@ -64,6 +64,21 @@ CHECKS = {
          "implementation's transform output alone (label counts and exact shares on train and dev, missing outputs, label sets, rate ranking), and the same cases go through the Lean model of the search.",
     ref="DESIGN.md section 8 C02", technique="Lean 4 proof (corollaries of the search theorems) + direct judgement of transform output + model/code correspondence",
     note=BASE_NOTE + " Rate ties in the ranking are counted as ambiguous, not as violations."),
+ "C03": dict(
+    text="Lean theorems: the group index of select(x<=leader) is non-decreasing in x for any leaders and all numbers (groupIdx_mono), with strictly increasing leaders x falls in group i "
+         "exactly when leaders[i-1] < x <= leaders[i] (right-closed: groupIdx_interval, groupIdx_boundary), the +inf sentinel makes the last interval unbounded, every carving candidate is a cut of "
+         "the base order into consecutive runs (C01) and cuts of cuts are cuts (contiguous_trans). On the code: leaders strictly increasing, each quantitative group an interval ending at its leader, "
+         "ordinal groups runs of the user ranking, categorical modalities in exact training target-rate order, carver groups cuts of the base order, and a sorted probe column (boundaries, float "
+         "neighbours, midpoints, extremes) whose real outputs must be monotone and right-closed and agree with the model.",
+    ref="DESIGN.md section 8 C03", technique="Lean 4 proof (monotone right-closed step function, contiguity of cuts) + model/code correspondence on probe columns",
+    note=BASE_NOTE + " Contiguity of the base discretizers' merging loops (find_common_modalities) is checked on the code only until their model (C09) is proved."),
+ "C16": dict(
+    text="Lean theorems about the model of summary(): its rows only concern the requested feature(s) (summary_feature_only, summary_features), an unknown feature is refused, and the entries of a "
+         "qualitative feature are (value, label) pairs of the very label table transform uses. Correspondence: summary() and summary(f) of real objects (also rebuilt from JSON) equal the model's; "
+         "judged on the code: listed features, partition of known values, labels vs transform on a probe frame, missing values shown where transform sends them; history(): every recorded "
+         "association value is recomputed exactly by the Lean search model, first entry = raw distribution, last viable entry = fitted grouping.",
+    ref="DESIGN.md section 8 C16", technique="Lean 4 proof about the summary model + exact recomputation of history by the search model",
+    note=BASE_NOTE + " Row order / content order of the summary frame are not compared."),
 }
 NOT_YET = "check not built yet (construction in progress, see DESIGN.md section 13); will be claimed once its model, theorems and correspondence exist"
 
